@@ -127,7 +127,7 @@ func c20GenOpts(tag string, n int, w *destination.VerifDestFieldsT, wordBase int
 			text += " " + o.name + "=" + s
 			c20DestSet(w, o.name, s, 0, false)
 		case c20Int:
-			d := verifDigits(tag+".val", lens[verifChoice(tag+".vlen", len(lens))])
+			d := verifPosDigits(tag+".val", lens[verifChoice(tag+".vlen", len(lens))])
 			text += " " + o.name + "=" + d
 			c20DestSet(w, o.name, "", verifC20Num(d), false)
 		case c20Bool:
@@ -183,7 +183,7 @@ func VerifC20DestAll() {
 			text += " " + o.name + "=" + s
 			c20DestSet(&w, o.name, s, 0, false)
 		case c20Int:
-			d := verifDigits("val", 1+nums%3)
+			d := verifPosDigits("val", 1+nums%3)
 			nums++
 			text += " " + o.name + "=" + d
 			c20DestSet(&w, o.name, "", verifC20Num(d), false)
@@ -209,7 +209,7 @@ func VerifC20DestAll() {
 			text += " " + o.name + "=again"
 			c20DestSet(&w, o.name, "again", 0, false)
 		case c20Int:
-			d := verifDigits("again.val", 2)
+			d := verifPosDigits("again.val", 2)
 			text += " " + o.name + "=" + d
 			c20DestSet(&w, o.name, "", verifC20Num(d), false)
 		case c20Bool:
@@ -362,3 +362,17 @@ func VerifC20DocExamples() {
 }
 
 var _ route.Route
+
+// verifPosDigits: n symbolic digits denoting a value >= 1 (settings that cannot work with 0 -- flush,
+// reconnect and sync periods, iobuf, aggregation interval -- are refused by the constructors, see C14)
+func verifPosDigits(name string, n int) string {
+	d := verifDigits(name, n)
+	zero := true
+	for i := 0; i < len(d); i++ {
+		if d[i] != '0' {
+			zero = false
+		}
+	}
+	verifAssume(!zero)
+	return d
+}
